@@ -166,16 +166,25 @@ def run_case(ctx, rep, case, base, model_ok):
                     if t.metadata_manager.refresh() is None:
                         raise ValueError("No Iceberg table found")
                 else:
-                    t = Table(loc, create_if_not_exists=True, schema=tablekit.schema())
+                    # creators do not agree on the schema: every other one brings its own (only the winner's is the table's)
+                    own = tablekit.schema() if (ai % 2 == 1 or not case.get("schemas_differ")) else \
+                        tablekit.schema([{"id": 1, "name": "zzz", "type": "string", "required": False}], schema_id=0)
+                    t = Table(loc, create_if_not_exists=True, schema=own)
                 handles[ai] = t
                 md_ = t.metadata_manager.refresh()
                 at_return[ai] = md_.table_uuid if md_ else None
                 if kind == "append":
-                    t.append_records(tablekit.rows(1, start=1000 * ai, tag=f"a{ai}_"))
+                    row_ = tablekit.rows(1, start=1000 * ai, tag=f"a{ai}_")[0]
+                    sch_ = t._get_current_schema()
+                    if sch_ is not None and [f_["name"] for f_ in sch_.fields] == ["zzz"]:
+                        row_ = {"zzz": f"a{ai}_row"}         # the table is the OTHER creator's: records in ITS schema
+                    appended[ai] = row_
+                    t.append_records([row_])
                 return t
             return fn
 
         at_return = {}
+        appended = {}
         import datashard.storage_backend as sb
         from datashard.metadata_manager import MetadataManager
         oc, omi = sb.create_storage_backend, MetadataManager.__init__
@@ -262,12 +271,58 @@ def run_case(ctx, rep, case, base, model_ok):
                 problems.append("committed rows of the existing table were lost")
             for ai, k in enumerate(actors):
                 if k == "append" and seen[ai + 1] and not isinstance(seen[ai + 1], tuple):
-                    key = reader.rowkey(tablekit.rows(1, start=1000 * (ai + 1), tag=f"a{ai + 1}_")[0])
+                    key = reader.rowkey(appended.get(ai + 1) or tablekit.rows(1, start=1000 * (ai + 1), tag=f"a{ai + 1}_")[0])
                     if v["rows"].count(key) != 1:
                         problems.append(f"acknowledged first append of caller {ai + 1} is reflected {v['rows'].count(key)} times")
             sch = [s_ for s_ in v["md"]["schemas"] if s_["schema_id"] == v["md"]["current_schema_id"]]
             if any(k != "open" for k in actors) and init_state == "absent" and (not sch or not sch[0]["fields"]):
                 problems.append("schema supplied at creation was not persisted")
+        # ---- afterwards (sequentially): the pointer is lost while the table is as the race left it — every caller, old handle or
+        # new, still ends up on the SAME table; then a schema-less append through EVERY handle uses the persisted schema
+        if v is not None and not problems and len(ok_uuids) == 1 and case.get("aftermath", True):
+            the_uuid = next(iter(ok_uuids))
+            import time as _time
+            _real_sleep = _time.sleep
+            _time.sleep = lambda s_: _real_sleep(0)
+            _ns = fakes3.NoSleep()
+            _ns.__enter__()
+            try:
+                if backend == "local":
+                    os.remove(os.path.join(path, "metadata.version-hint.text"))
+                else:
+                    env.fake.objects.pop(f"{loc}/metadata.version-hint.text", None)
+                from datashard.transaction import Table as _T
+                again = _T(loc, create_if_not_exists=True, schema=tablekit.schema())
+                u2 = again.metadata_manager.refresh().table_uuid
+                if u2 != the_uuid:
+                    problems.append(f"after the pointer was lost a new caller ends up on another table (identity {uuid_num(u2)} instead of {uuid_num(the_uuid)})")
+                for ai_, h_ in handles.items():
+                    md_ = h_.metadata_manager.refresh()
+                    if md_ is not None and md_.table_uuid != the_uuid:
+                        problems.append(f"after the pointer was lost caller {ai_}'s handle moved to another table")
+                sch2 = again._get_current_schema()
+                names_ = [f_["name"] for f_ in (sch2.fields if sch2 is not None else [])]
+                v2 = {"rows": again.scan()}
+                if names_:
+                    for ai_, h_ in sorted(handles.items()):
+                        row_ = {"id": 5000 + ai_, "name": f"post{ai_}"} if names_ == ["id", "name"] else {n_: f"post{ai_}" for n_ in names_}
+                        try:
+                            h_.append_records([row_])
+                        except Exception as e:      # noqa: BLE001
+                            problems.append(f"schema-less append of a record in the PERSISTED schema through caller {ai_}'s handle raises {type(e).__name__}: {str(e)[:80]}")
+                            break
+                    if not problems:
+                        try:
+                            got_ = _T(loc, create_if_not_exists=False).scan()
+                            if len(got_) != len(v2["rows"]) + len(handles):
+                                problems.append(f"after one schema-less append per handle the table has {len(got_)} rows instead of {len(v2['rows']) + len(handles)}")
+                        except Exception as e:      # noqa: BLE001
+                            problems.append(f"the table no longer scans after schema-less appends through every handle: {type(e).__name__}: {str(e)[:80]}")
+            except Exception as e:      # noqa: BLE001
+                problems.append(f"aftermath raised {type(e).__name__}: {str(e)[:100]}")
+            finally:
+                _time.sleep = _real_sleep
+                _ns.__exit__(None, None, None)
         for p_ in problems:
             rep.violate("C18:" + p_.split(":")[0].replace(" ", "-")[:60], f"{backend}/{init_state} {actors}: {p_}", case_rec)
     finally:
@@ -410,6 +465,8 @@ def cases(ctx):
             out.append({"backend": backend, "initial": "absent", "actors": ["create", "append"], "chooser": _preempt_before(pre, age), "no_model": True})
             out.append({"backend": backend, "initial": "absent", "actors": ["create", "create"], "chooser": _preempt_before(pre, age),
                         "lock_may_lapse": age})
+            out.append({"backend": backend, "initial": "absent", "actors": ["create", "create"], "chooser": _preempt_before(pre, age),
+                        "lock_may_lapse": age, "schemas_differ": True, "no_model": True})
     for backend in ("local", "s3cas"):
         for initial in ("absent", "healthy", "pointer-lost", "v0-without-pointer", "legacy-names-pointer-lost", "pointer-lost-deep"):
             out.append({"backend": backend, "initial": initial, "actors": ["create", "create"]})
@@ -417,7 +474,7 @@ def cases(ctx):
     for _ in range(ctx.budget(30, 1200)):
         n = rng.choice([2, 2, 3])
         out.append({"backend": rng.choice(["local", "s3cas"]), "initial": rng.choice(["absent", "absent", "healthy", "pointer-lost", "v0-without-pointer", "legacy-names-pointer-lost"]),
-                    "actors": [rng.choice(["create", "create", "open", "append"]) for _ in range(n)]})
+                    "actors": [rng.choice(["create", "create", "open", "append"]) for _ in range(n)], "schemas_differ": rng.random() < 0.5})
     for i, c in enumerate(out):
         c["id"] = i
     return out
